@@ -223,6 +223,8 @@ func main() {
 	for _, c := range corpus() {
 		runScenario(r, c, true)
 	}
+	r.Note("observation (not a violation: the property speaks of files): directory entries are added to the counter but the counter is only compared with MaxFileCount after a regular file; the corpus case 'ten directory entries, file count limit 3' succeeds (Coq: unzip_success_entry_count_refuted)")
+	r.Note("archive/zip itself refuses to deliver more bytes than the header declares (checksumReader), which is why io.Copy instead of the bounded copy would still not over-write; the correspondence notices such a change, the oracle rightly does not")
 	n := r.N(900, 12000)
 	emitN := r.N(900, 3000)
 	for i := 0; i < n; i++ {
